@@ -80,7 +80,65 @@ def c12(run):
         "of strings/binaries/optlists/cache keys are disposed of on every path (R-OWN-LOCAL). Necessary for 'live while referenced, everything released'.")
 
 
+CODEC_UNITS = ('coap_pdu.c', 'coap_option.c')
+
+
+def _codec_funcs(P):
+    return set(f['name'] for f in P.lib_funcs() if f['unit'] in CODEC_UNITS)
+
+
+def c01(run):
+    from rules import r_codec, r_width, r_fixup
+    P = run.prog('rel')
+    r_codec.run(run, P)
+    r_width.run_a(run, P)
+    r_fixup.run_stale(run, P, only=_codec_funcs(P))
+    r_fixup.run_pairing(run, P)
+    run.min_instances('R-CODEC-TAB', 30)
+    run.min_instances('R-FIXUP', 8)
+    run.assumptions = ASSUME_COMMON + ["equality of parse(serialise(m)) with m over the message space and insertion-order stability are NOT decided"]
+    return run.finish(
+        "Writer/reader table agreement decided statically: the thresholds, arm offsets and nibble splits of every option/TCP-length/token-length "
+        "encoder and decoder equal the RFC 7252/8323/8974 tables and each other, the decoder's option-number bound as folded by the compiler equals the "
+        "builder's (R-CODEC-TAB); no store passes through a narrowing explicit cast that can lose bits (R-WIDTH); the builder never uses a buffer "
+        "pointer across a reallocation and moves payload pointer and size together (R-FIXUP). Necessary conditions of the round trip.")
+
+
+def c03(run):
+    from rules import r_codec, r_width, r_parsegate
+    P = run.prog('rel')
+    r_width.run_b(run, P)
+    r_codec.run(run, P)
+    r_parsegate.run(run, P)
+    run.min_instances('R-WIDTH', 4)
+    run.min_instances('R-PARSE-GATE', 15)
+    run.assumptions = ASSUME_COMMON + ["agreement with an independent decoder on all inputs and the per-option length table are NOT decided"]
+    return run.finish(
+        "Decoder strictness decided structurally: option-number arithmetic cannot wrap unnoticed (interval analysis of every assignment to the "
+        "16-bit delta / running number with wrap-guard or range-guard discharge, R-WIDTH); decoder tables agree with the encoder's and the RFCs "
+        "(R-CODEC-TAB); every reject condition of the frozen table (nibble 15, TKL 15, token longer than message, marker without payload, "
+        "non-empty Empty, option-number overflow, runt) exists and every path through its rejecting arm returns 0, and coap_dispatch is reached only "
+        "after successful parser calls (R-PARSE-GATE).")
+
+
+def c04(run):
+    from rules import r_width, r_fixup
+    P = run.prog('rel')
+    r_width.run_a(run, P)
+    r_fixup.run_stale(run, P, only=_codec_funcs(P))
+    r_fixup.run_pairing(run, P)
+    run.min_instances('R-FIXUP', 8)
+    run.assumptions = ASSUME_COMMON + ["equality with the list model after arbitrary edit sequences is NOT decided"]
+    return run.finish(
+        "In-place editors (coap_update_token, coap_remove_option, coap_insert_option, coap_update_option and the codec units): every adjustment of "
+        "used_size is matched by the same adjustment of a non-NULL payload pointer and equals the memmove distance, no pointer into the buffer is used "
+        "after a call that may reallocate it (R-FIXUP), and no length is stored through a narrowing explicit cast that can truncate it (R-WIDTH).")
+
+
 PROPS = {
+    'C01': c01,
+    'C03': c03,
+    'C04': c04,
     'C12': c12,
     'C18': c18,
     'C13': c13,
